@@ -272,7 +272,7 @@ func runC01(p *Prog, r *Report, tier string) {
 				}
 			}
 		}
-		r.Check(nLk == 2, "R-LAYOUT.field-specifier", fnKey(fr)+": registry lookup by (big-endian id bytes, enterprise number)", p.pos(fr.Pos()), "both branches", "the element id used for the registry lookup is not the big-endian value of the id bytes read from the wire", true)
+		r.Check(nLk >= 1 && nLk == len(callsTo(fr, "pkg/registry.GetInfoElementFromID")), "R-LAYOUT.field-specifier", fnKey(fr)+": registry lookup by (big-endian id bytes, enterprise number)", p.pos(fr.Pos()), "every lookup", "the element id used for the registry lookup is not the big-endian value of the id bytes read from the wire", true)
 	}
 	checkSpecifierFreshness(p, r, "R-LAYOUT.field-specifier-fresh")
 	checkReverseRegistration(p, r, "R-TABLE.reverse")
